@@ -1232,4 +1232,162 @@ theorem closestPointsWorld3_segment_segment (pos1 pos2 : Iso3 K) (a1 b1 a2 b2 : 
   | within p1 p2 => exact hspec
   | disjoint => exact hspec
 
+
+section world
+open Model.Glue Model.Gjk
+
+private theorem ballAt_act (pos12 : Iso3 K) (r : K) (y : V3 K) (h : C03.Unit3 pos12) :
+    letI := fieldNum K sq
+    BallAt r ⟨0, 0, 0⟩ y → BallAt r pos12.t (pos12.act y) := by
+  letI := fieldNum K sq
+  intro hy
+  have e := IsoLemmas.rot_normSq sq pos12 y h
+  simp only [BallAt, Iso3.act, V3.add, V3.normSq, V3.dot] at hy e ⊢
+  have : ∀ a b : K, a + b - b = a := fun a b => by ring
+  rw [this, this, this]
+  linarith
+
+private theorem ballAt_invAct (pos12 : Iso3 K) (r : K) (p : V3 K) (h : C03.Unit3 pos12) :
+    letI := fieldNum K sq
+    BallAt r pos12.t p → BallAt r ⟨0, 0, 0⟩ (pos12.invAct p) := by
+  letI := fieldNum K sq
+  intro hp
+  have e := (C03.iso3_invRot_dot sq pos12 (p.sub pos12.t) (p.sub pos12.t) h).1
+  simp only [BallAt, Iso3.invAct, V3.sub, V3.dot] at hp e ⊢
+  simp only [sub_zero]
+  linarith
+
+/-- **`query::closest_points(pos1, ball1, pos2, ball2, max_dist)`, world space, full statement** (unit quaternions, radii and
+`max_dist` `≥ 0`): the answer exists (no panic) and satisfies `WorldSpec` for the two balls `B(0,r1)`, `B(0,r2)` placed by
+`pos1`, `pos2`: `Intersecting` ⇒ the placed balls share a point; `WithinMargin(w1,w2)` ⇒ the witnesses are images of points of
+their balls, no world pair is closer, gap `≤ max_dist`; `Disjoint` ⇒ every world pair is farther than `max_dist`. -/
+theorem closestPointsWorld3_ball_ball (hs : LawfulSqrt sq) (pos1 pos2 : Iso3 K) (r1 r2 m : K)
+    (h1 : C03.Unit3 pos1) (h2 : C03.Unit3 pos2) (hr1 : 0 ≤ r1) (hr2 : 0 ≤ r2) (hm : 0 ≤ m) :
+    letI := fieldNum K sq
+    letI := fieldBits K
+    ∃ w, Glue.closestPointsWorld3 pos1 (.ball r1) pos2 (.ball r2) m = some w ∧
+      WorldSpec sq (BallAt r1 ⟨0, 0, 0⟩) (BallAt r2 ⟨0, 0, 0⟩) pos1 pos2 m w := by
+  letI := fieldNum K sq
+  letI := fieldBits K
+  have hu : C03.Unit3 (pos1.invMul pos2) := C03.unit3_invMul sq pos1 pos2 h1 h2
+  have hspec := closestPointsBallBall_spec sq hs (pos1.invMul pos2) r1 r2 m hu hr1 hr2 hm
+  have hloc : ∀ r, Glue.dispatchCP3 (pos1.invMul pos2) (.ball r1) (.ball r2) m = some r →
+      LocalSpec sq (BallAt r1 ⟨0, 0, 0⟩) (BallAt r2 ⟨0, 0, 0⟩) (pos1.invMul pos2) m r := by
+    intro r hr
+    simp only [Glue.dispatchCP3] at hr
+    rw [hr] at hspec
+    generalize pos1.invMul pos2 = P at hu hspec ⊢
+    cases r with
+    | intersecting =>
+      obtain ⟨p, hp1, hp2⟩ := hspec
+      refine ⟨p, P.invAct p, hp1, ballAt_invAct sq P r2 p hu hp2, ?_⟩
+      unfold gapL
+      rw [(C03.iso3_invAct_act sq P p hu).2]
+      simp only [V3.sub, V3.normSq, V3.dot]; ring
+    | within p1 p2 =>
+      obtain ⟨hp1, hp2, _, hmin, hle, _⟩ := hspec
+      exact ⟨hp1, hp2, fun x y hx hy => hmin x (P.act y) hx (ballAt_act sq P r2 y hu hy), hle⟩
+    | disjoint =>
+      intro x y hx hy
+      exact hspec x (P.act y) hx (ballAt_act sq P r2 y hu hy)
+  cases hc : Glue.closestPointsWorld3 pos1 (.ball r1) pos2 (.ball r2) m with
+  | none =>
+    exfalso
+    simp only [Glue.closestPointsWorld3, Glue.dispatchCP3, Option.map_eq_none_iff] at hc
+    rw [hc] at hspec
+    exact hspec
+  | some w => exact ⟨w, rfl, closestPointsWorld3_spec sq _ _ pos1 pos2 _ _ m w h1 h2 hloc hc⟩
+
+
+/-- **the half-space kernel satisfies the local statement of the property** (`LocalSpec` form of
+`closestPointsHalfspaceSupportMap_spec`): half-space `{n·p ≤ 0}`, `|n| = 1`, any local set `S2` whose support map honours the
+contract in direction `-n` for the placed set, unit quaternion, `margin ≥ 0`. -/
+theorem closestPointsHalfspaceSupportMap_local (S2 : V3 K → Prop) (supp : Iso3 K → V3 K → V3 K) (pos12 : Iso3 K)
+    (n : V3 K) (m : K) (hn : n.x * n.x + n.y * n.y + n.z * n.z = 1) (hm : 0 ≤ m) (hq : C03.Unit3 pos12) :
+    letI := fieldNum K sq
+    SupportsIn (Placed3 sq pos12 S2) n.neg (supp pos12 n.neg) →
+    ∃ r, closestPointsHalfspaceSupportMap supp pos12 n m = some r ∧ LocalSpec sq (HalfAt n) S2 pos12 m r := by
+  letI := fieldNum K sq
+  intro hsup
+  have hspec := closestPointsHalfspaceSupportMap_spec sq S2 supp pos12 n m hn hm hq hsup
+  have hpl : ∀ y, S2 y → Placed3 sq pos12 S2 (pos12.act y) := by
+    intro y hy
+    unfold Placed3
+    rw [(C03.iso3_invAct_act sq pos12 y hq).1]; exact hy
+  cases hc : closestPointsHalfspaceSupportMap supp pos12 n m with
+  | none => rw [hc] at hspec; exact hspec.elim
+  | some r =>
+    rw [hc] at hspec
+    refine ⟨r, rfl, ?_⟩
+    cases r with
+    | intersecting =>
+      obtain ⟨p, hp1, hp2⟩ := hspec
+      refine ⟨p, pos12.invAct p, hp1, hp2, ?_⟩
+      unfold gapL
+      rw [(C03.iso3_invAct_act sq pos12 p hq).2]
+      simp only [V3.sub, V3.normSq, V3.dot]; ring
+    | within p1 p2 =>
+      obtain ⟨hp1, hp2, _, hmin, hle, _⟩ := hspec
+      exact ⟨hp1, hp2, fun x y hx hy => hmin x (pos12.act y) hx (hpl y hy), hle⟩
+    | disjoint =>
+      intro x y hx hy
+      exact hspec x (pos12.act y) hx (hpl y hy)
+
+/-- **`query::closest_points(pos1, halfspace, pos2, g2, max_dist)`, world space, full statement**, for every modelled
+support-mapped kind `g2` (cuboid, segment, triangle, capsule, cone, cylinder, rounded kinds): if `g2`'s `support_point` honours the
+C10 contract in direction `-n` for the set `S2` placed by `pos12 = pos1.inv_mul(pos2)`, the entry point answers (no panic) and its
+answer satisfies `WorldSpec` for the half-space and `S2`. -/
+theorem closestPointsWorld3_halfspace_sm (S2 : V3 K → Prop) (pos1 pos2 : Iso3 K) (n : V3 K) (g2 : DSh3 K) (m : K)
+    (h1 : C03.Unit3 pos1) (h2 : C03.Unit3 pos2) (hn : n.x * n.x + n.y * n.y + n.z * n.z = 1) (hm : 0 ≤ m)
+    (hb : g2.isBall = false) (hh : g2.isHalfspace = false) :
+    letI := fieldNum K sq
+    letI := fieldBits K
+    SupportsIn (Placed3 sq (pos1.invMul pos2) S2) n.neg (g2.posed (pos1.invMul pos2) n.neg) →
+    ∃ w, Glue.closestPointsWorld3 pos1 (.halfspace n) pos2 g2 m = some w ∧ WorldSpec sq (HalfAt n) S2 pos1 pos2 m w := by
+  letI := fieldNum K sq
+  letI := fieldBits K
+  intro hsup
+  have hu : C03.Unit3 (pos1.invMul pos2) := C03.unit3_invMul sq pos1 pos2 h1 h2
+  obtain ⟨r, hr, hloc⟩ := closestPointsHalfspaceSupportMap_local sq S2 g2.posed (pos1.invMul pos2) n m hn hm hu hsup
+  have hd : Glue.dispatchCP3 (pos1.invMul pos2) (.halfspace n) g2 m = some r := by
+    rw [← hr]
+    cases g2 <;> first | rfl | (simp [DSh3.isBall, DSh3.isHalfspace] at hb hh)
+  refine ⟨transformBy3 r pos1 pos2, ?_, transformBy3_spec sq _ _ pos1 pos2 m r h1 h2 hloc⟩
+  simp only [Glue.closestPointsWorld3, hd, Option.map_some]
+
+/-- **`query::closest_points(pos1, g1, pos2, halfspace, max_dist)`** (mirrored route `closest_points_support_map_halfspace`:
+inverse pose, swapped roles, `.flipped()`, then `transform_by`): same statement with the roles exchanged. The support contract is
+needed for the placement by `pos12⁻¹`. -/
+theorem closestPointsWorld3_sm_halfspace (S1 : V3 K → Prop) (pos1 pos2 : Iso3 K) (n : V3 K) (g1 : DSh3 K) (m : K)
+    (h1 : C03.Unit3 pos1) (h2 : C03.Unit3 pos2) (hn : n.x * n.x + n.y * n.y + n.z * n.z = 1) (hm : 0 ≤ m)
+    (hb : g1.isBall = false) (hh : g1.isHalfspace = false) :
+    letI := fieldNum K sq
+    letI := fieldBits K
+    SupportsIn (Placed3 sq (pos1.invMul pos2).inverse S1) n.neg (g1.posed (pos1.invMul pos2).inverse n.neg) →
+    ∃ w, Glue.closestPointsWorld3 pos1 g1 pos2 (.halfspace n) m = some w ∧ WorldSpec sq S1 (HalfAt n) pos1 pos2 m w := by
+  letI := fieldNum K sq
+  letI := fieldBits K
+  intro hsup
+  have hu : C03.Unit3 (pos1.invMul pos2) := C03.unit3_invMul sq pos1 pos2 h1 h2
+  have hui : C03.Unit3 (pos1.invMul pos2).inverse := C03.unit3_inverse sq _ hu
+  obtain ⟨r, hr, hloc⟩ := closestPointsHalfspaceSupportMap_local sq S1 g1.posed (pos1.invMul pos2).inverse n m hn hm hui hsup
+  have hd : Glue.dispatchCP3 (pos1.invMul pos2) g1 (.halfspace n) m = some (flipped r) := by
+    have : Glue.closestPointsSmHalfspace3 g1.posed (pos1.invMul pos2) n m = some (flipped r) := by
+      simp only [Glue.closestPointsSmHalfspace3, hr, Option.map_some]
+    rw [← this]
+    cases g1 <;> first | rfl | (simp [DSh3.isBall, DSh3.isHalfspace] at hb hh)
+  refine ⟨transformBy3 (flipped r) pos1 pos2, ?_,
+    transformBy3_spec sq _ _ pos1 pos2 m _ h1 h2 (flipped_spec sq S1 (HalfAt n) (pos1.invMul pos2) m r hu hloc)⟩
+  simp only [Glue.closestPointsWorld3, hd, Option.map_some]
+
+
+end world
+
+/-- non-vacuity of the side conditions of the world theorems: two unit quaternions over `ℚ` (one far from the origin), a unit
+normal, a non-ball non-half-space kind -/
+example : C03.Unit3 (⟨0, 0, 3/5, 4/5, ⟨1, -2, 3⟩⟩ : Iso3 ℚ) ∧ C03.Unit3 (⟨1/2, -1/2, 1/2, 1/2, ⟨0, 700, 1/3⟩⟩ : Iso3 ℚ) ∧
+    ((0 : ℚ) * 0 + (3/5) * (3/5) + (-4/5) * (-4/5) = 1) ∧ (Glue.DSh3.cuboid (⟨1, 2, 3⟩ : V3 ℚ)).isBall = false ∧
+    (Glue.DSh3.round (Glue.DSh3.cuboid (⟨1, 2, 3⟩ : V3 ℚ)) (1/4)).isHalfspace = false := by
+  refine ⟨by unfold C03.Unit3; norm_num, by unfold C03.Unit3; norm_num, by norm_num, rfl, rfl⟩
+
 end C01
